@@ -301,6 +301,9 @@ void OPN2::noteOn(size_t c, double tone)
     // Hertz range: 0..131071
     double hertz = s_commonFreq(tone);
 
+#ifdef OPNMIDI_VERIF
+    if(m_verifNoteTap && (hertz < 0 || hertz > 131071)) m_verifNoteTap(m_verifTapData, c, tone, -1.0);
+#endif
     if(hertz < 0 || hertz > 131071) // Avoid infinite loop
         return;
 
